@@ -21,6 +21,7 @@ struct St {
     bool begun[16] = {false}, returned[16] = {false}, owed_all[16] = {false}, timed[16] = {false};
     int never_woken = 0;
     int ret[16]; int owed_one = 0; std::string log; bool woken[16] = {false};
+    bool overlap[16] = {false}; std::vector<int> pending_ids;     // notify_one notifiers whose snapshot..notify span overlapped another one's: the per-call claim is void (the aggregate claim in final_oracle stays)
     int pending_one = 0;       // notify_one notifiers that have taken their snapshot (under the lock) but not yet notified: each may take one of the waiters a later notifier counted
 };
 static St* G;
@@ -92,7 +93,7 @@ static void body(mvprog::PT& p) {
         bool hold = (op == 'h');
         bool inside = (op == 'n' || op == 'a' || hold), all = (op == 'A' || op == 'a');
         int expect = 0;
-        if (op != 'u') { LOCK(); G->pred = true; expect = snapshot(all); if (!all) { expect = std::max(0, expect - G->pending_one); G->pending_one++; } pmc_log("  [+%llu] T%d %c took the lock: expect=%d", (unsigned long long)(mv_now() - MV_T0), me, op, expect); if (!inside) UNLOCK(); }
+        if (op != 'u') { LOCK(); G->pred = true; expect = snapshot(all); if (!all) { expect = std::max(0, expect - G->pending_one); G->pending_one++; if (!G->pending_ids.empty()) { G->overlap[me] = true; for (int id : G->pending_ids) G->overlap[id] = true; } G->pending_ids.push_back(me); } pmc_log("  [+%llu] T%d %c took the lock: expect=%d", (unsigned long long)(mv_now() - MV_T0), me, op, expect); if (!inside) UNLOCK(); }
         else expect = snapshot(false, true);
         if (all) {
             int n = G->cv.notify_all();
@@ -100,10 +101,10 @@ static void body(mvprog::PT& p) {
             if (n < expect) pmc_violation("notify_all-count", "notify_all() returned %d but %d waiter(s) were waiting when the notifier took the lock", n, expect);
         } else {
             thread* t = G->cv.notify_one();
-            if (op != 'u') G->pending_one--;
+            if (op != 'u') { G->pending_one--; G->pending_ids.erase(std::remove(G->pending_ids.begin(), G->pending_ids.end(), me), G->pending_ids.end()); }
             { int who = -1; if (t) for (auto& q : G->prog.pts) if (q.th == t) who = q.idx; pmc_log("  [+%llu] T%d notify_one -> %d", (unsigned long long)(mv_now() - MV_T0), me, who); }
             if (t) for (auto& q : G->prog.pts) if (q.th == t) G->woken[q.idx] = true;
-            if (!t && expect > 0 && op != 'u') pmc_violation("notify_one-null", "notify_one() returned null although %d waiter(s) were waiting when the notifier took the lock", expect);
+            if (!t && expect > 0 && op != 'u' && !G->overlap[me]) pmc_violation("notify_one-null", "notify_one() returned null although %d waiter(s) were waiting when the notifier took the lock", expect);
         }
         if (hold) { thread_yield(); mv_yield("holding after notify"); thread_yield(); }
         if (inside) UNLOCK();
